@@ -497,17 +497,9 @@ func checkC01(c *Ctx, r *Report) {
 		}
 		for _, st := range keySt {
 			val := st.(*ssa.Store).Val
-			ok := okCF
-			for _, l := range phiLeaves(val) {
-				if isNilConst(l) {
-					continue
-				}
-				if !isRecvFrom(func(ch ssa.Value) bool { kc, i := resultOf(ch); return okCF && kc == cf[0] && i == 1 })(l) {
-					ok = false
-				}
-			}
+			ok := okCF && receivedFrom(c, val, func(ch ssa.Value) bool { kc, i := resultOf(ch); return okCF && kc == cf[0] && i == 1 }, 0)
 			r7.Check(ok, dwsK+": remotePubKey from keyCh of ConfigForPeer(p)", instrPos(st), 1, "", "", "")
-			r7.guard(d, "store identity", append(append([]ssa.Instruction{}, idSt...), st), "remotePubKey != nil", edgeNil(isValue(val), false), nil)
+			r7.guard(d, "store identity", append(append([]ssa.Instruction{}, idSt...), st), "remotePubKey != nil", nonNilEdges(c, d, val), nil)
 		}
 		if len(idSt) == 0 || len(keySt) == 0 {
 			r7.Fail(dwsK+": identity stores", d.Pos(), "required sites missing", "")
@@ -559,16 +551,15 @@ func checkC01(c *Ctx, r *Report) {
 	nHP := 0
 	for _, f := range c.FnsOfPkg(quicP) {
 		root := c.Root(f)
-		var wantPeer func(v ssa.Value) bool
-		what := ""
-		switch fnKey(root) {
-		case "(*" + quicP + ".transport).holePunch":
-			wantPeer = func(v ssa.Value) bool { return isParamVar(c, v, "p") }
-			what = "the peer being dialed (parameter p)"
-		case "(*" + quicP + ".listener).Accept":
-			wantPeer = func(v ssa.Value) bool { return isLoadOfField(quicP + ".conn.remotePeerID")(strip(v)) }
-			what = "the accepted connection's authenticated remotePeerID"
+		// dial side: the peer being dialled; everywhere else (accept side, helpers): the authenticated remote peer of a conn
+		isDialSide := fnKey(root) == "(*"+quicP+".transport).holePunch"
+		wantPeer := func(v ssa.Value) bool {
+			if isDialSide && isParamVar(c, v, "p") {
+				return true
+			}
+			return isLoadOfField(quicP + ".conn.remotePeerID")(strip(v))
 		}
+		what := "the peer being dialed (in transport.holePunch) or the accepted connection's authenticated remotePeerID"
 		allInstrs(f, func(in ssa.Instruction) {
 			var key ssa.Value
 			switch x := in.(type) {
@@ -590,10 +581,6 @@ func checkC01(c *Ctx, r *Report) {
 			}
 			nHP++
 			k := fmt.Sprintf("%s: holePunching key names the peer", fnKey(f))
-			if wantPeer == nil {
-				r10.Fail(k, instrPos(in), "the hole-punch table is accessed outside transport.holePunch / listener.Accept", "")
-				return
-			}
 			vals, ok := structFieldValues(c, key, "peer", 3)
 			good := ok && len(vals) > 0
 			for _, v := range vals {
@@ -710,18 +697,10 @@ func checkC01(c *Ctx, r *Report) {
 // is the confirmed form the value is equivalent to ("" when it is none of them, in particular when it can be
 // false although a peer is expected and the check is not disabled).
 func checkPeerIDForm(f *ssa.Function, site ssa.Instruction, v ssa.Value) string {
-	isEmptyStr := func(x ssa.Value) bool { s, ok := constString(x); return ok && s == "" }
 	isP := func(x ssa.Value) bool { p, ok := x.(*ssa.Parameter); return ok && paramIs(p, "p") }
 	atoms := []atomPred{
-		func(x ssa.Value) (bool, bool) { // p != ""
-			b, ok := x.(*ssa.BinOp)
-			if !ok || (b.Op != token.NEQ && b.Op != token.EQL) {
-				return false, false
-			}
-			if (isP(b.X) && isEmptyStr(b.Y)) || (isP(b.Y) && isEmptyStr(b.X)) {
-				return true, b.Op == token.NEQ
-			}
-			return false, false
+		func(x ssa.Value) (bool, bool) { // p != "" (any spelling, len(p) > 0 included)
+			return nonEmptyTest(x, func(y ssa.Value) bool { return isP(strip(y)) || isP(y) })
 		},
 		func(x ssa.Value) (bool, bool) { // disablePeerIDCheck
 			fl, _ := loadOfField(x)
@@ -879,4 +858,96 @@ func structFieldValues(c *Ctx, v ssa.Value, field string, depth int) ([]ssa.Valu
 		return out, len(out) > 0
 	}
 	return nil, false
+}
+
+// receivedFrom: every non-nil source of v is a receive from a channel satisfying ch — directly, through a select,
+// or inside a module helper that receives from the parameter the channel is passed as.
+func receivedFrom(c *Ctx, v ssa.Value, ch func(ssa.Value) bool, depth int) bool {
+	leaves := phiLeaves(v)
+	if len(leaves) == 0 {
+		return false
+	}
+	some := false
+	for _, l := range leaves {
+		if isNilConst(l) {
+			continue
+		}
+		if isRecvFrom(ch)(l) {
+			some = true
+			continue
+		}
+		ex, ok := l.(*ssa.Extract)
+		if !ok || depth >= 2 {
+			return false
+		}
+		call, ok := ex.Tuple.(*ssa.Call)
+		if !ok {
+			return false
+		}
+		h := call.Call.StaticCallee()
+		if h == nil || h.Blocks == nil || h.Pkg == nil || !strings.HasPrefix(h.Pkg.Pkg.Path()+"/", Mod) {
+			return false
+		}
+		inner := func(x ssa.Value) bool {
+			for k, p := range h.Params {
+				if (x == ssa.Value(p) || isParamCellLoad(c, x, p)) && k < len(call.Call.Args) && ch(strip(call.Call.Args[k])) {
+					return true
+				}
+			}
+			return false
+		}
+		for _, ret := range returnsOf(h) {
+			if ex.Index >= len(ret.Results) || !receivedFrom(c, ret.Results[ex.Index], inner, depth+1) {
+				// a return that yields nil for this result is fine
+				if ex.Index < len(ret.Results) && isNilConst(strip(ret.Results[ex.Index])) {
+					continue
+				}
+				return false
+			}
+		}
+		some = true
+	}
+	return some
+}
+
+// nonNilEdges: the CFG edges of f on which val is known to be non-nil: a nil test of val itself, or — when val is
+// one result of a module helper — a boolean result of the same call that the helper makes true only together with
+// a non-nil value (`return key, key != nil`).
+func nonNilEdges(c *Ctx, f *ssa.Function, val ssa.Value) EdgePred {
+	preds := []EdgePred{edgeNil(isValue(val), false)}
+	if ex, ok := strip(val).(*ssa.Extract); ok {
+		if call, ok := ex.Tuple.(*ssa.Call); ok {
+			if h := call.Call.StaticCallee(); h != nil && h.Blocks != nil && h.Pkg != nil && strings.HasPrefix(h.Pkg.Pkg.Path()+"/", Mod) {
+				res := h.Signature.Results()
+				for j := 0; j < res.Len(); j++ {
+					if b, isB := res.At(j).Type().Underlying().(*types.Basic); !isB || b.Kind() != types.Bool || j == ex.Index {
+						continue
+					}
+					okAll := true
+					for _, ret := range returnsOf(h) {
+						rj, ri := ret.Results[j], strip(ret.Results[ex.Index])
+						if bv, isC := constBool(rj); isC && !bv {
+							continue
+						}
+						if x, isEq, ok := nilCmpOf(rj); ok && !isEq && strip(x) == ri {
+							continue
+						}
+						// constant true (or anything else): the return must lie past `ri != nil`
+						w, _ := (&Cut{Fn: h, Target: isInstr(ret), EdgeCut: edgeNil(isValue(ri), false)}).Run(c)
+						if w != "" {
+							okAll = false
+						}
+					}
+					if okAll {
+						j := j
+						preds = append(preds, edgeBool(func(v ssa.Value) bool {
+							e2, ok := v.(*ssa.Extract)
+							return ok && e2.Tuple == ex.Tuple && e2.Index == j
+						}, true))
+					}
+				}
+			}
+		}
+	}
+	return anyEdge(preds...)
 }
